@@ -2,6 +2,7 @@ import AtsimModel.Model.Eam
 import Mathlib.Data.String.Basic
 import AtsimModel.Lemmas.KernelQ
 import AtsimModel.Lemmas.TokSem
+import AtsimModel.Props.C05
 /-!
 # C04 — Finnis-Sinclair densities land in the slot the consumer reads for that pair
 
@@ -290,5 +291,194 @@ theorem C04_code_density_fs (I : String → Nat → Rat → Rat) (hI : ZeroFn I)
   unfold setfl_density_fs
   rw [SetflFsWriter.density_fs_loop_sem I hI]
   simp [elBlock, streamSem]
+
+/-! ## The code itself: the whole extended-EAM TABEAM file (`writeTABEAMFinnisSinclair`)
+
+`Atsim.Gen.Logic.tabeam_write_fs` is the function as regenerated on every run: `numpots = 3n(n+1)/2`, the common part, then for every element A (in the order given) and
+every label B of the SORTED label list the look-up `A.electronDensityFunction[B]` - a `KeyError` becomes the writer's error - written under the header `dens A B`. -/
+
+namespace TabeamFsWriter
+open Atsim.Gen.Logic Atsim.TokSem Atsim.C05 Atsim.C05.TabeamWriter
+
+/-- `eamPotential.electronDensityFunction[speciesB]` read from the writer's record is the model's dictionary look-up, absent keys included -/
+theorem densOfOpt_toEam (a : El) (b : String) : densOfOpt (toEam a) b = (dictGet a.densTo b).map FnRec.mk := by
+  unfold densOfOpt dictGet toEam
+  simp only [← List.map_reverse, List.find?_map]
+  have hfun : ((fun e : String × FnRec => e.1 == b) ∘ fun p : Sp × Fid => (p.1, (⟨p.2⟩ : FnRec))) = fun p : Sp × Fid => p.1 == b := rfl
+  rw [hfun]
+  cases a.densTo.reverse.find? (fun p : Sp × Fid => p.1 == b) <;> simp
+
+theorem leS_total (a b : String) : leS a b = true ∨ leS b a = true := by
+  simpa [leS] using String.le_total a b
+
+theorem leS_trans (a b c : String) : leS a b = true → leS b c = true → leS a c = true := by
+  simp only [leS, decide_eq_true_eq]
+  exact String.le_trans
+
+theorem leS_antisymm (a b : String) : leS a b = true → leS b a = true → a = b := by
+  simp only [leS, decide_eq_true_eq]
+  exact String.le_antisymm
+
+/-- `sorted(ep.species for ep in eampots)` is the model's sorted label list -/
+theorem species_sorted_eq (els : List El) :
+    stableSortBy (fun a b => decide (a ≤ b)) ((els.map toEam).map fun ep => ep.species) = sortSp (els.map (·.sp)) := by
+  have hm : ((els.map toEam).map fun ep => ep.species) = els.map (·.sp) := by
+    rw [List.map_map]; rfl
+  rw [hm]
+  apply stableSortBy_eq leS leS_total leS_trans leS_antisymm _ _ (sortSp_perm _).symm
+  exact (sortSp_sorted _).imp (fun h => decide_eq_true h)
+
+/-- inner loop, every look-up succeeds: one `dens A B` block per label, in the order of the label list -/
+theorem fs_loop2_sem (I : String → Nat → Rat → Rat) (hI : ZeroFn I) (dr drho : Rat) (a : El) (ha : a.sp ≠ "") (E : List EamRec) (nr : Nat) (nrho : Int)
+    (numpots : Rat) (out0 : List Tok) (PP : List PotRec) (SL : List String) (title : String) :
+    ∀ (bs : List String) (out : List Tok), (∀ b ∈ bs, b ≠ "" ∧ (dictGet a.densTo b).isSome) →
+      ∃ r, tabeam_write_fs_loop2 dr drho (toEam a) E (nr : Int) nrho numpots out0 out PP a.sp SL title bs = .ok r ∧
+        streamSem I r = streamSem I out ++
+          (bs.map fun b => tblock "dens" [a.sp, b] ((dictGet a.densTo b).getD 0) nr dr).flatMap (tblockSem I)
+  | [], out, _ => ⟨out, rfl, by simp⟩
+  | b :: bs, out, h => by
+    obtain ⟨hb, hs⟩ := h b List.mem_cons_self
+    obtain ⟨f, hf⟩ := Option.isSome_iff_exists.1 hs
+    have hd : densOfOpt (toEam a) b = some ⟨f⟩ := by rw [densOfOpt_toEam, hf]; rfl
+    obtain ⟨r, hr, hsem⟩ := fs_loop2_sem I hI dr drho a ha E nr nrho numpots out0 PP SL title bs
+      (tabeam_density a.sp (some b) ⟨f⟩ (nr : Int) dr out) (fun b' hb' => h b' (List.mem_cons_of_mem _ hb'))
+    refine ⟨r, ?_, ?_⟩
+    · simp only [tabeam_write_fs_loop2, hd]
+      exact hr
+    · rw [hsem, C05_code_density_pair I hI a.sp b ha hb, rowLine_eq]
+      simp [hf, tblockSem, tblock, List.append_assoc]
+
+/-- outer loop, every look-up succeeds: for every element in the order given, its blocks for the label list -/
+theorem fs_loop1_sem (I : String → Nat → Rat → Rat) (hI : ZeroFn I) (dr drho : Rat) (E : List EamRec) (nr : Nat) (nrho : Int)
+    (numpots : Rat) (out0 : List Tok) (PP : List PotRec) (SL : List String) (title : String) (hSL : ∀ b ∈ SL, b ≠ "") :
+    ∀ (els : List El) (out : List Tok), (∀ a ∈ els, a.sp ≠ "" ∧ ∀ b ∈ SL, (dictGet a.densTo b).isSome) →
+      ∃ r, tabeam_write_fs_loop1 dr drho E (nr : Int) nrho numpots out0 out PP SL title (els.map toEam) = .ok r ∧
+        streamSem I r = streamSem I out ++
+          (els.flatMap fun a => SL.map fun b => tblock "dens" [a.sp, b] ((dictGet a.densTo b).getD 0) nr dr).flatMap (tblockSem I)
+  | [], out, _ => ⟨out, rfl, by simp⟩
+  | a :: els, out, h => by
+    obtain ⟨ha, hs⟩ := h a List.mem_cons_self
+    obtain ⟨r2, hr2, hsem2⟩ := fs_loop2_sem I hI dr drho a ha E nr nrho numpots out0 PP SL title SL out
+      (fun b hb => ⟨hSL b hb, hs b hb⟩)
+    obtain ⟨r, hr, hsem⟩ := fs_loop1_sem I hI dr drho E nr nrho numpots out0 PP SL title hSL els r2
+      (fun a' ha' => h a' (List.mem_cons_of_mem _ ha'))
+    refine ⟨r, ?_, ?_⟩
+    · simp only [List.map_cons, tabeam_write_fs_loop1]
+      have hsp : (toEam a).species = a.sp := rfl
+      rw [hsp, hr2]
+      exact hr
+    · rw [hsem, hsem2]
+      simp [List.append_assoc]
+
+/-- the inner loop raises nothing but the missing-entry error -/
+theorem fs_loop2_ok_or (dr drho : Rat) (p : EamRec) (E : List EamRec) (nr nrho : Int) (numpots : Rat) (out0 : List Tok) (PP : List PotRec)
+    (A : String) (SL : List String) (title : String) :
+    ∀ (bs : List String) (out : List Tok),
+      (∃ r, tabeam_write_fs_loop2 dr drho p E nr nrho numpots out0 out PP A SL title bs = .ok r) ∨
+        tabeam_write_fs_loop2 dr drho p E nr nrho numpots out0 out PP A SL title bs = .error WErr.missingDensity
+  | [], out => Or.inl ⟨out, rfl⟩
+  | b :: bs, out => by
+    simp only [tabeam_write_fs_loop2]
+    cases densOfOpt p b with
+    | none => exact Or.inr rfl
+    | some f => exact fs_loop2_ok_or dr drho p E nr nrho numpots out0 PP A SL title bs _
+
+/-- inner loop, an entry is missing for some label of the list: the error -/
+theorem fs_loop2_missing (dr drho : Rat) (p : EamRec) (E : List EamRec) (nr nrho : Int) (numpots : Rat) (out0 : List Tok) (PP : List PotRec)
+    (A : String) (SL : List String) (title : String) (b : String) (hmiss : densOfOpt p b = none) :
+    ∀ (bs : List String) (out : List Tok), b ∈ bs →
+      tabeam_write_fs_loop2 dr drho p E nr nrho numpots out0 out PP A SL title bs = .error WErr.missingDensity
+  | [], _, h => by simp at h
+  | x :: bs, out, h => by
+    simp only [tabeam_write_fs_loop2]
+    cases hx : densOfOpt p x with
+    | none => rfl
+    | some f =>
+      rcases List.mem_cons.1 h with rfl | h'
+      · rw [hmiss] at hx; cases hx
+      · exact fs_loop2_missing dr drho p E nr nrho numpots out0 PP A SL title b hmiss bs _ h'
+
+/-- outer loop, some element of the list lacks an entry for some label: the error -/
+theorem fs_loop1_missing (dr drho : Rat) (E : List EamRec) (nr nrho : Int) (numpots : Rat) (out0 : List Tok) (PP : List PotRec)
+    (SL : List String) (title : String) (p : EamRec) (b : String) (hb : b ∈ SL) (hmiss : densOfOpt p b = none) :
+    ∀ (ps : List EamRec) (out : List Tok), p ∈ ps →
+      tabeam_write_fs_loop1 dr drho E nr nrho numpots out0 out PP SL title ps = .error WErr.missingDensity
+  | [], _, h => by simp at h
+  | x :: ps, out, h => by
+    simp only [tabeam_write_fs_loop1]
+    rcases List.mem_cons.1 h with rfl | h'
+    · rw [fs_loop2_missing dr drho p E nr nrho numpots out0 PP p.species SL title b hmiss SL out hb]
+      rfl
+    · rcases fs_loop2_ok_or dr drho x E nr nrho numpots out0 PP x.species SL title SL out with ⟨r, hr⟩ | he
+      · rw [hr]
+        exact fs_loop1_missing dr drho E nr nrho numpots out0 PP SL title p b hb hmiss ps r h'
+      · rw [he]
+        rfl
+
+/-- the declared count `3n(n+1)/2` is a whole number: the model's ℕ division is exact -/
+theorem count_fs (n : Nat) : ((3 * n * (n + 1) / 2 : Nat) : Rat) = ((3 : Rat) * (n : Rat)) * ((n : Rat) + 1) / 2 := by
+  have h1 : 2 ∣ 3 * n * (n + 1) := by
+    rcases Nat.even_or_odd n with ⟨k, hk⟩ | ⟨k, hk⟩
+    · exact ⟨3 * k * (n + 1), by rw [hk]; ring⟩
+    · exact ⟨3 * n * (k + 1), by rw [hk]; ring⟩
+  rw [Nat.cast_div h1 (by norm_num)]
+  push_cast
+  rfl
+
+end TabeamFsWriter
+
+open Atsim.Gen.Logic Atsim.TokSem in
+/-- **code tie (routing)**: when every element's dictionary has an entry for every label, the file is the model's `tabeam true …`: the block headed `dens A B` holds
+    the values of A's dictionary entry for B, for every ordered pair, A in element order and B in sorted order -/
+theorem C04_code_tabeam_fs (I : String → Nat → Rat → Rat) (hI : ZeroFn I) (els : List El) (pairs : List PairDecl)
+    (hnd : (els.map (·.sp)).Nodup) (hne : ∀ e ∈ els, e.sp ≠ "")
+    (hfull : ∀ a ∈ els, ∀ b ∈ els, (dictGet a.densTo b.sp).isSome)
+    (nrho nr : Nat) (drho dr : Rat) (title : String) (out : List Tok) :
+    (tabeam_write_fs (nrho : Int) drho (nr : Int) dr (els.map toEam) (pairs.map toPot) out title).map (streamSem I) =
+      .ok (streamSem I out ++ tabeamSem I title (tabeam true nrho drho nr dr els pairs)) := by
+  unfold tabeam_write_fs
+  simp only []
+  rw [TabeamFsWriter.species_sorted_eq]
+  have hmemS : ∀ b, b ∈ sortSp (els.map (·.sp)) → ∃ e ∈ els, e.sp = b := by
+    intro b hb
+    rw [(Atsim.C05.TabeamWriter.sortSp_perm _).mem_iff, List.mem_map] at hb
+    exact hb
+  obtain ⟨r, hr, hsem⟩ := TabeamFsWriter.fs_loop1_sem I hI dr drho (els.map toEam) nr (nrho : Int)
+    ((((3 : Rat) * (((((els.map toEam).length : Nat) : Int) : Int) : Rat)) * ((((((els.map toEam).length : Nat) : Int) : Int) : Rat) + (1 : Rat))) / (2 : Rat))
+    out (pairs.map toPot) (sortSp (els.map (·.sp))) title
+    (by intro b hb; obtain ⟨e, he, rfl⟩ := hmemS b hb; exact hne e he)
+    els
+    (tabeam_except_density (nrho : Int) drho (nr : Int) dr (els.map toEam) (pairs.map toPot) title
+      ((((3 : Rat) * (((((els.map toEam).length : Nat) : Int) : Int) : Rat)) * ((((((els.map toEam).length : Nat) : Int) : Int) : Rat) + (1 : Rat))) / (2 : Rat)) [])
+    (by
+      intro a ha
+      refine ⟨hne a ha, ?_⟩
+      intro b hb
+      obtain ⟨e, he, rfl⟩ := hmemS b hb
+      exact hfull a ha e he)
+  rw [hr]
+  simp only [andThen, Except.map]
+  rw [Atsim.C05.TabeamWriter.streamSem_append, hsem, Atsim.C05.C05_code_except_density I hI els pairs hnd]
+  simp only [tabeamSem, tabeam, if_true, TabeamFsWriter.count_fs, List.length_map, Int.cast_natCast, List.flatMap_append,
+    List.append_assoc]
+  simp [streamSem]
+
+open Atsim.Gen.Logic Atsim.TokSem in
+/-- **code tie (no silent substitution)**: when some element's dictionary lacks an entry for some label, nothing is written: the writer raises -/
+theorem C04_code_tabeam_fs_missing (els : List El) (pairs : List PairDecl) (a b : El) (ha : a ∈ els) (hb : b ∈ els)
+    (hmiss : dictGet a.densTo b.sp = none)
+    (nrho nr : Nat) (drho dr : Rat) (title : String) (out : List Tok) :
+    tabeam_write_fs (nrho : Int) drho (nr : Int) dr (els.map toEam) (pairs.map toPot) out title = .error WErr.missingDensity := by
+  unfold tabeam_write_fs
+  simp only []
+  rw [TabeamFsWriter.species_sorted_eq]
+  have hb' : b.sp ∈ sortSp (els.map (·.sp)) := by
+    rw [(Atsim.C05.TabeamWriter.sortSp_perm _).mem_iff]
+    exact List.mem_map.2 ⟨b, hb, rfl⟩
+  have hm : densOfOpt (toEam a) b.sp = none := by
+    rw [TabeamFsWriter.densOfOpt_toEam, hmiss]; rfl
+  rw [TabeamFsWriter.fs_loop1_missing dr drho _ _ _ _ _ _ _ _ (toEam a) b.sp hb' hm _ _ (List.mem_map.2 ⟨a, ha, rfl⟩)]
+  rfl
+
 
 end Atsim.C04
